@@ -57,7 +57,7 @@ pub fn elem(r: &mut Rng, flavour: i64, i: u64) -> Vec<u8> {
         0 => format!("e{}", i).into_bytes(),
         1 => { let n = r.below(12) as usize; let mut v = r.bytes(n); v.extend_from_slice(format!("#{}", i).as_bytes()); v }
         2 => if (i as usize) < INT_LIKE.len() { INT_LIKE[i as usize].as_bytes().to_vec() } else { format!("{}", i as i64 * 7919 - 40000).into_bytes() },
-        3 => { if i == 0 && r.chance(1, 3) { return b"__FERROUS_STREAM_MARKER__".to_vec(); } let mut v = r.pick(MARKER_KEYS).to_vec(); v.extend_from_slice(format!("{}", i).as_bytes()); v }
+        3 => { if i == 0 && r.chance(1, 3) { return if r.chance(2, 3) { b"__FERROUS_STREAM_MARKER__".to_vec() } else { b"__FERROUS_LIST_ESCAPE__".to_vec() }; } let mut v = r.pick(MARKER_KEYS).to_vec(); v.extend_from_slice(format!("{}", i).as_bytes()); v }
         _ => { let n = *r.pick(&[62usize, 63, 64, 65, 255, 256]); let mut v = vec![b'a' + (i % 26) as u8; n]; v.extend_from_slice(format!("{}", i).as_bytes()); v }
     }
 }
@@ -187,10 +187,11 @@ pub fn save_restart(h: &mut H, prop: &str, downtime: u64, generation: &mut u32) 
     h.count("restarts", 1);
     let after = snapshot(h, h.inst);
     let elapsed = h.sim.now() - t0;
-    // Known root cause with collateral damage: streams are written as a list whose first element is an
-    // internal marker string, so a genuine list that starts with that string is read back as a stream and
-    // the reader loses its place in the file. Such a run reports that one cause, not its many symptoms.
-    let marker_list = before.iter().any(|m| m.values().any(|e| matches!(&e.value, DumpValue::List(l) if l.first().map_or(false, |x| x.as_slice() == b"__FERROUS_STREAM_MARKER__"))));
+    // Root cause with collateral damage (repaired, kept as a regression guard): streams are written as a list whose
+    // first element is an internal marker string; a genuine list that starts with that string (or with the escape
+    // string that now protects it) must not be read back as a stream - if it is, the reader loses its place in the
+    // file, and such a run reports that one cause, not its many symptoms.
+    let marker_list = before.iter().any(|m| m.values().any(|e| matches!(&e.value, DumpValue::List(l) if l.first().map_or(false, |x| x.as_slice() == b"__FERROUS_STREAM_MARKER__" || x.as_slice() == b"__FERROUS_LIST_ESCAPE__"))));
     let nviol = h.violations.len();
     compare_restored(h, prop, &before, &after, elapsed);
     if marker_list && h.violations.len() > nviol {
